@@ -77,7 +77,8 @@ with Session(e) as s:
     a.x, a.y
     s.expire(a, ["x"])
     s.execute(update(A).where(A.x == 2).values(y=10), execution_options={"synchronize_session": "evaluate"})
-    mem, db = a.__dict__.get("y"), s.execute(select(A.__table__.c.y)).scalar()
+    db = s.execute(select(A.__table__.c.y)).scalar()
+    mem = a.y  # (an expired attribute would simply be reloaded here: that is a correct outcome)
     wrong = not (type(mem) is type(db) and mem == db)
     print(f"C43-R4 UPDATE WHERE x = 2 (x expired, row has x = 1): in-session y={mem} database y={db}",
           "DEFECT" if wrong else "ok")
@@ -86,7 +87,8 @@ with Session(e) as s:
     a.x, a.y
     s.expire(a, ["x"])
     s.execute(update(A).where(A.id == 1).values(y=A.x + 1), execution_options={"synchronize_session": "evaluate"})
-    mem, db = a.__dict__.get("y"), s.execute(select(A.__table__.c.y)).scalar()
+    db = s.execute(select(A.__table__.c.y)).scalar()
+    mem = a.y  # (an expired attribute would simply be reloaded here: that is a correct outcome)
     wrong = not (type(mem) is type(db) and mem == db)
     print(f"C43-R4 UPDATE SET y = x + 1 (x expired): in-session y={mem!r} database y={db}",
           "DEFECT (internal sentinel stored as attribute value)" if wrong else "ok")
